@@ -331,21 +331,20 @@ Definition elaborate_upper (s : stmt) : option stmt :=
     end
   else None.
 
-(* ALLOMETRY(value[, decimal]): the covariate name keeps its spelling; AllometryInterpreter reads children[1], so a
-   statement WITHOUT the (grammatically optional) reference value fails inside the interpreter *)
+(* ALLOMETRY(value[, decimal]): the covariate name keeps its spelling; without the (optional) reference value the
+   dataclass default 70.0 applies (Allometry( *children ) since fix c794b0d; it used to read children[1]: IndexError) *)
 Definition allometry_args (s : stmt) : option (item * option arg) :=
   match s_args s with
   | [AVals [v]] => if negb (s_opt s) && value_word (item_str v) then Some (v, None) else None
   | [AVals [v]; r] => if negb (s_opt s) && value_word (item_str v) then Some (v, Some r) else None
   | _ => None
   end.
-Definition allometry_missing_ref (s : stmt) : bool :=
-  str_eqb (upper_str (s_name s)) n_ALLOMETRY && match allometry_args s with Some (_, None) => true | _ => false end.
+Definition default_reference : str := [55;48].     (* 70.0 printed without its zero fraction *)
 Definition elaborate (s : stmt) : option stmt :=
   let name := upper_str (s_name s) in
   if str_eqb name n_ALLOMETRY then
     match allometry_args s with
-    | Some (v, None) => Some (mkS name false [AVals [IWord (item_str v)]])
+    | Some (v, None) => Some (mkS name false [AVals [IWord (item_str v)]; AVals [IWord default_reference]])
     | Some (v, Some (AVals [INum n])) => Some (mkS name false [AVals [IWord (item_str v)]; AVals [IWord (num_chars n)]])
     | Some (v, Some (AVals [IWord w])) =>
         match canonical_decimal w with
@@ -384,7 +383,7 @@ Definition parse_mfl (text : list N) : outcome :=
   match parse_ref text with
   | Some ss =>
       match elaborate_all ss with
-      | Some ss' => if existsb allometry_missing_ref ss then InternalError else Accepted ss'
+      | Some ss' => Accepted ss'
       | None => Rejected
       end
   | None => Rejected
